@@ -1,5 +1,5 @@
 \* careless variant (the environment is reopened with an explicit map size of one chunk, corrected upwards to the data size):
-\* a restart eats the head-room - must violate HeadroomKept (anti-vacuity)
+\* a restart eats the head-room - must violate HeadroomKept IterInOrder (anti-vacuity)
 SPECIFICATION MCSpec
 CONSTANTS
   NS = 1
@@ -20,6 +20,10 @@ CONSTANTS
   ReadNotCounted = FALSE
   SqueezedFits = TRUE
   ReopenClampsMap = TRUE
+  LiveSized = FALSE
+  Page = 1
+  PageBySkipCur = FALSE
+  PageFreshSnap = FALSE
   BatchMax = 1
   MaxOps = 14
   WithReads = FALSE
@@ -27,4 +31,4 @@ CONSTANTS
   Offset = 0
 VIEW View
 INVARIANTS TypeOK
-PROPERTIES HeadroomKept
+PROPERTIES HeadroomKept IterInOrder
